@@ -22,7 +22,7 @@ INVS = ("AtMostOnce NoStrand NoCrash NoClientCrash NoDisposeWhileBusy NoUseAfter
 # the property as stated, without the ledger (used to show that a mutant breaks the PROPERTY, not just the bookkeeping)
 PROP_INVS = "AtMostOnce NoCrash NoDisposeWhileBusy NoUseAfterDispose DisposeOnlyAtMinusOne FinalizerOK NoLeak"
 CONFIGS = {"R1": dict(W=1), "R1b": dict(W=1), "R2": dict(W=1), "R3": dict(W=1), "R4": dict(W=2), "R5": dict(W=1, child=True),
-           "R6": dict(W=1, inactive=True), "R7": dict(W=1)}
+           "R6": dict(W=1, inactive=True), "R7": dict(W=1), "R4t": dict(W=2)}
 QUICK = ["R1", "R1b", "R2", "R5", "R6"]
 THOROUGH = QUICK + ["R3", "R4", "R7"]
 MUTANTS = [("R1b", "push_late_retain", PROP_INVS), ("R1", "wakeup_forgets_release", PROP_INVS),
@@ -97,6 +97,27 @@ def model(v, tier):
                  "invariants": "property-level only" if invs == PROP_INVS else "all"})
 
 
+def simulate(v, seed):
+    """Thorough only: the 3-item concurrent-lane program (readers, a barrier, a sync reader; > 1e6 states, not
+    exhausted) is sampled with TLC -simulate: every behaviour runs to quiescence with all safety invariants on."""
+    cfg = refs_cfg("R4t", live=False)
+    r = tlc("MCRefs.tla", cfg, workers=max(2, NCPU // 2), timeout=2400, heap="3g", simulate=8000, depth=300, seed=seed,
+            metaname="%s_sim_R4t" % PROP)
+    if r.timeout:
+        raise Broken("TLC -simulate timed out on Refs/R4t")
+    m = re.search(r"number of states generated: (\d+)", r.out)
+    t = re.findall(r"(\d+) traces generated", r.out)
+    if r.violated:
+        p = save_replay(PROP, "Refs_R4t_sim.tlc.out", r.out)
+        v.violation("Refs.tla config R4t (simulation) violates %s" % r.violated, p)
+    elif r.rc != 0 or not m:
+        raise Broken("TLC -simulate failed on Refs/R4t (rc=%s):\n%s" % (r.rc, r.out[-2000:]))
+    gen = int(m.group(1)) if m else 0
+    v.transitions += gen
+    v.models.append({"config": "Refs/R4t (-simulate, sampled not exhausted)", "states_generated": gen,
+                     "behaviours": int(t[-1]) if t else 0, "wall_s": round(r.wall, 1), "result": r.violated or "ok"})
+
+
 def validate(tr, meta):
     no = 0
     with open(tr) as f:
@@ -137,7 +158,7 @@ def drive(v, tier, seed):
     if tier == "quick":
         plan = [(i, [2, 3, 1][i % 3], 8, 14, 0x1f if i % 2 == 0 else 0x01) for i in range(8)]
     else:
-        plan = [(i, [2, 3, 1][i % 3], 12, 22, [0x1f, 0x01, 0x1f, 0x03][i % 4]) for i in range(36)]
+        plan = [(i, [2, 3, 1][i % 3], 12, 22, [0x1f, 0x01, 0x1f, 0x03][i % 4]) for i in range(72)]
     runs = []
 
     def one(p):
@@ -221,7 +242,7 @@ def sanitize(v, tier, seed):
     """Memory-safe half: OBSERVED on an ASan+UBSan(+LSan) build of the same driver."""
     drv = build_driver("drv_refs", "asan")
     d = rundir(PROP)
-    n = 3 if tier == "quick" else 12
+    n = 3 if tier == "quick" else 30
     env = {"ASAN_OPTIONS": "detect_leaks=1:exitcode=66:abort_on_error=0:halt_on_error=1:detect_stack_use_after_return=0",
            "UBSAN_OPTIONS": "print_stacktrace=0", "LSAN_OPTIONS": "exitcode=67"}
     for sym in ("/usr/bin/llvm-symbolizer-15", "/usr/bin/llvm-symbolizer", "/usr/bin/llvm-symbolizer-14"):
@@ -270,6 +291,8 @@ def run(tier, seed):
                      "hooked build serialises traced atomics with their log record (global lock)",
                      "memory safety proper is observed (ASan/LSan), not decided"]
     model(v, tier)
+    if tier == "thorough":
+        simulate(v, seed)
     drive(v, tier, seed)
     if tier == "thorough" or os.environ.get("VERIF_C17_ASAN") == "1":
         sanitize(v, tier, seed)
